@@ -441,14 +441,30 @@ def run_check(mod, tier, seed, root, budget_s=None, workers=None, min_runs=None,
     return exit_code
 
 
+def _clip(obj, limit=300):
+    """Shorten very long strings / lists inside a sample so evidence files stay readable."""
+    if isinstance(obj, str):
+        return obj if len(obj) <= limit else obj[:limit] + '...(%d chars in all)' % len(obj)
+    if isinstance(obj, (bytes, bytearray)):
+        return _clip(bytes(obj).hex(), limit)
+    if isinstance(obj, dict):
+        return {k: _clip(v, limit) for k, v in obj.items()}
+    if isinstance(obj, (list, tuple)):
+        out = [_clip(v, limit) for v in obj[:60]]
+        if len(obj) > 60:
+            out.append('...(%d items in all)' % len(obj))
+        return out
+    return obj
+
+
 def write_evidence(mod, tier, seed, total, nfixed, wall, nreported, nviol, known_ids, workers):
     os.makedirs(EVID_DIR, exist_ok=True)
     runs = total['runs']
-    samples = [mod.describe_case(c) if hasattr(mod, 'describe_case') else c
+    samples = [_clip(mod.describe_case(c) if hasattr(mod, 'describe_case') else c)
                for c in total['samples'][:4]]
     if not samples:
         fc = mod.fixed_cases(tier)
-        samples = [mod.describe_case(fc[0]) if hasattr(mod, 'describe_case') else fc[0]] if len(fc) else []
+        samples = [_clip(mod.describe_case(fc[0]) if hasattr(mod, 'describe_case') else fc[0])] if len(fc) else []
     cov = {
         'evaluations': runs,
         'distinct_nontrivial': len(total['nontrivial']),
